@@ -20,6 +20,9 @@ var worlds = map[string]kernel.WorldFunc{
 	"C08": props.RunC08,
 	"C15": props.RunC15,
 	"C09": props.RunC09,
+	"C16": props.RunC16,
+	"C03": props.RunC03,
+	"C18": props.RunC18,
 }
 
 // TestSim is the single entry point of the test binary; the driver script
